@@ -7,6 +7,6 @@ P2 == {1, 2}
 P3 == {1, 2, 3}
 View == <<pc, cnt, file, wbuf, q, alive, joinable, clones, app, acked, ackAtShut, ackAtFlush, flushed, lostOk, ops>>
 Done == app = "down" /\ (\A p \in Producers : pc[p] = "idle") /\ (Async => (~alive \/ q = <<>>))
-GenView == <<hist, Len(q), alive>>
+GenView == <<hist, Len(q), alive, app>>
 Emit == (GenHist /\ Done) => PrintT(<<"REPLAY", ToJson([cfg |-> [mode |-> Mode], steps |-> hist])>>)
 =============================================================================
